@@ -279,7 +279,13 @@ macro_rules! caps_slice {
     (CDefVec) => {
         fn slice(w: &World) -> Option<Value> {
             let st = w.read_storage::<Self>();
-            let vals: Vec<Value> = st.as_slice().iter().map(|c| c.js()).collect();
+            let sl = st.as_slice();
+            if sl.len() > 2048 {
+                // far-apart indices: only the slots that differ from Default, and the length
+                let nd: Vec<Value> = sl.iter().enumerate().filter(|(_, c)| c.cid() != 0 || c.val() != 0).map(|(i, c)| json!([i, c.js()])).collect();
+                return Some(json!({"kind":"defvec_sparse","len":sl.len(),"items":nd}));
+            }
+            let vals: Vec<Value> = sl.iter().map(|c| c.js()).collect();
             Some(json!({"kind":"defvec","vals":vals}))
         }
         fn slice_mut(w: &World, sel: Sel) -> Option<Value> {
